@@ -76,4 +76,17 @@ VecAsMap(v) ==
 (* lookups: 0-based index of the entry with that id, or the element count *)
 LookupDev(v, d) == IndexOf(v, LAMBDA e : e.dev = d) - 1
 LookupIf(ifs, i) == IndexOf(ifs, LAMBDA e : e.id = i) - 1
+
+(* ---- observations of the real object (judges) --------------------------------- *)
+(* the observed vectors in the shape of Status!vec *)
+ObsVec(e) == [k \in 1..Len(e.snap) |->
+                 [dev |-> e.snap[k].dev, pkt |-> e.snap[k].pkt,
+                  ifs |-> [j \in 1..Len(e.snap[k].ifs) |-> [id |-> e.snap[k].ifs[j].id, pkt |-> e.snap[k].ifs[j].pkt]]]]
+
+LookupsOK(e) ==
+    LET v == ObsVec(e) IN
+    /\ e.count = Len(v)
+    /\ \A x \in 1..Len(e.devlookup) : e.devlookup[x].idx = LookupDev(v, e.devlookup[x].dev)
+    /\ \A k \in 1..Len(v) : \A x \in 1..Len(e.snap[k].iflookup) :
+           e.snap[k].iflookup[x].idx = LookupIf(v[k].ifs, e.snap[k].iflookup[x].id)
 =============================================================================
